@@ -215,6 +215,27 @@ def all_nodes(root):
 
 EML_NS = "https://eml.ecoinformatics.org/eml-2.2.0"
 
+# element names the library does not know, as real documents bring them: HTML left by pasted text, EML elements the library has no
+# rule for, other vocabularies (with and without prefix), case variants, Clark notation
+FOREIGN_NAMES = ["verifUnknown", "span", "div", "font", "center", "small", "big", "b", "i", "p", "br", "a", "table", "tr", "td", "ul", "li",
+                 "referencePublication", "usageCitation", "literatureCited", "Polygon", "gml:Polygon", "dc:title", "Title", "dataSet", "TITLE",
+                 "{https://eml.ecoinformatics.org/eml-2.2.0}title", "eml:dataset", "title ", " title", ""]
+
+
+def foreign_node(rng, with_children=None):
+    """An unknown element; one in three has element children of its own (inline markup inside a wrapper, a nested structure)."""
+    from vlib.emlkit import Node
+    c = Node(rng.choice(FOREIGN_NAMES), content=rng.choice([None, "x", "some text"]))
+    if with_children if with_children is not None else rng.random() < 0.34:
+        for nm in rng.sample(["subscript", "emphasis", "para", "title", "verifDeep", "span"], rng.randint(1, 2)):
+            k = Node(nm, content="inner")
+            c.add_child(k)
+            if rng.random() < 0.3:
+                k.add_child(Node("value", content="deeper"))
+    if rng.random() < 0.3:
+        c.tail = rng.choice([" text after the element", "\n    "])
+    return c
+
 EDIT_KINDS = ("attr_value", "attr_value", "attr_value", "content", "content", "drop_child", "add_child", "attr_add", "attr_del", "swap_children",
               "prefix", "rename", "tail")
 
@@ -366,7 +387,7 @@ def mutate(root, rng, gen, kind=None):
             return f"move {n.name} under {t.name}"
     if kind == "rename_unknown":
         n = rng.choice(nodes if len(nodes) == 1 else inner or nodes)
-        n.name = rng.choice(["verifUnknown", "Title", "dataSet", ""])
+        n.name = rng.choice(FOREIGN_NAMES)
         return f"rename to unknown {n.name!r}"
     if kind == "rename_known":
         n = rng.choice(inner or nodes)
@@ -402,7 +423,7 @@ def mutate(root, rng, gen, kind=None):
             return "junk under metadata"
     if kind == "add_unknown_child":
         n = rng.choice(nodes)
-        n.add_child(Node(rng.choice(["verifUnknown", "referencePublication", "usageCitation"])), rng.randint(0, len(n.children)))
+        n.add_child(foreign_node(rng), rng.randint(0, len(n.children)))
         return f"unknown child under {n.name}"
     if kind == "add_known_child":
         n = rng.choice(nodes)
